@@ -1,6 +1,7 @@
 """C18: splitting, merging, loading, parsing and converting preserve every sample (def-use + table rules)."""
 
 from ..core import AnalysisError
+from ..common import inline_same_module_private
 from ..ir import Walker, has_guard, show, subterms
 from ..rules_ift import Rep
 
@@ -29,7 +30,7 @@ FULL = ("slice", None, None, None)
 
 def check_split(rep, repo, name, with_index):
     fi = repo.need_function(SPLIT, name)
-    w = Walker(repo, fi, inline=lambda f: False)
+    w = Walker(repo, fi, inline=inline_same_module_private(fi))
     X, Y = ("param", "X"), ("param", "Y")
     rng = [e for e in w.events if e.kind == "call" and e.target is not None and e.target[0] == "mod"
            and (e.target[1].startswith("numpy.random.") or e.target[1].startswith("random."))]
@@ -49,7 +50,7 @@ def check_split(rep, repo, name, with_index):
         return
     rep.ev("SPLIT-seed-first", draws[0], ok_seed and seeds[0].seq < draws[0].seq, "the seed call must precede the draw")
     perm = draws[0].value
-    rets = [e for e in w.events if e.kind == "return"]
+    rets = [e for e in w.events if e.kind == "return" and e.fn is w.entry]
     if len(rets) != 1 or rets[0].value[0] != "tuple":
         raise AnalysisError(f"{name}: expected a single tuple return")
     out = rets[0].value[1]
@@ -103,8 +104,8 @@ def check_split(rep, repo, name, with_index):
 
 def check_merge(rep, repo):
     fi = repo.need_function(SPLIT, "merge")
-    w = Walker(repo, fi, inline=lambda f: False)
-    rets = [e for e in w.events if e.kind == "return"]
+    w = Walker(repo, fi, inline=inline_same_module_private(fi))
+    rets = [e for e in w.events if e.kind == "return" and e.fn is w.entry]
     ok = False
     if len(rets) == 1 and rets[0].value[0] == "tuple" and len(rets[0].value[1]) == 2:
         x, y = rets[0].value[1]
@@ -119,11 +120,11 @@ def check_merge(rep, repo):
 
 def check_parser(rep, repo):
     fi = repo.need_function(PARSER, "parse_loader")
-    w = Walker(repo, fi, inline=lambda f: False)
+    w = Walker(repo, fi, inline=inline_same_module_private(fi))
     d = ("param", fi.params[0])
     Xt = ("idx", d, ("tuple", (FULL, ("slice", ("const", 2), None, None))))
     Yt = ("idx", d, ("tuple", (FULL, ("const", 1))))
-    rets = [e for e in w.events if e.kind == "return" and e.value[0] == "tuple" and e.value[1][0] != ("const", None)]
+    rets = [e for e in w.events if e.kind == "return" and e.fn is w.entry and e.value[0] == "tuple" and e.value[1][0] != ("const", None)]
     ok = len(rets) == 1 and rets[0].value[1] == (Xt, ("call", ("attr", Yt, "astype"), (("builtin", "int"),), ()))
     rep.fn("PARSE-columns", fi, "features = columns 2.., labels = column 1 cast to int", ok,
            f"returns '{show(rets[0].value)[:160] if rets else '?'}'")
@@ -141,20 +142,22 @@ def check_parser(rep, repo):
 
 def converter_facts(repo, name):
     fi = repo.need_function(CONV, name)
-    w = Walker(repo, fi, inline=lambda f: False)
+    w = Walker(repo, fi, inline=inline_same_module_private(fi))
     facts = {}
     unp = [e for e in w.events if e.kind == "call" and e.name == "struct.unpack"]
-    hdr = [e for e in unp if not e.loops]
-    rec = [e for e in unp if e.loops]
+    hdr = [e for e in unp if e.args and e.args[0][0] == "const"]
+    rec = [e for e in unp if e not in hdr]
     if len(hdr) != 1 or len(rec) != 1:
         raise AnalysisError(f"{name}: expected one header and one record struct.unpack")
     facts["header_format"] = hdr[0].args[0]
     H = hdr[0].value
     R = rec[0].value
-    facts["record_in_loop_over"] = w.loops[rec[0].loops[-1]].domain
+    facts["record_in_loop_over"] = w.loops[rec[0].loops[-1]].domain if rec[0].loops else None
     fmt = rec[0].args[0]
     H0 = hdr[0].value
-    closed = [("bin", "+", *sorted([("const", "<ii"), ("bin", "*", *sorted([("const", "f"), ("idx", H0, ("const", 2))], key=repr))], key=repr))]
+    nfeat = [("idx", H0, ("const", 2))]
+    closed = [("bin", "+", *sorted([("const", "<ii"), ("bin", "*", *sorted([("const", "f"), nf], key=repr))], key=repr))
+              for nf in nfeat]
     if fmt in closed:
         facts["record_format"] = (("const", "<ii"), (("const", "f"),), ("call", ("builtin", "range"), (("idx", H0, ("const", 2)),), ()))
     elif fmt[0] == "phi":
@@ -171,6 +174,16 @@ def converter_facts(repo, name):
     facts["row"] = app[0].args[0] if len(app) == 1 else None
     sv = [e for e in w.events if e.kind == "call" and e.name in ("numpy.savetxt", "json.dump")]
     facts["writer"] = sv[0] if len(sv) == 1 else None
+    if facts["row"] is None and sv:
+        # comprehension form: the written object is (or contains under "data") a list comprehension of rows
+        obj = sv[0].args[1] if sv[0].name == "numpy.savetxt" and len(sv[0].args) > 1 else (sv[0].args[0] if sv[0].args else None)
+        if obj is not None and obj[0] == "dict":
+            for k, v in obj[1]:
+                if k == ("const", "data"):
+                    obj = v
+        if obj is not None and obj[0] == "listcomp":
+            facts["row"] = obj[1]
+            facts["row_from_listcomp"] = True
     facts["walker"] = w
     facts["fi"] = fi
     return facts
@@ -226,7 +239,7 @@ def check_converters(rep, repo):
     # loaders
     for ext, loader, delim in (("txt", "load_txt", " "), ("csv", "load_csv", ",")):
         fi = repo.need_function(LOADER, loader)
-        w = Walker(repo, fi, inline=lambda f: False)
+        w = Walker(repo, fi, inline=inline_same_module_private(fi))
         calls = [e for e in w.events if e.kind == "call" and e.name == "numpy.loadtxt"]
         ok = len(calls) == 1 and calls[0].args[:1] == (("param", fi.params[0]),) \
             and dict(calls[0].kwargs).get("delimiter") == ("const", delim) and set(dict(calls[0].kwargs)) <= {"delimiter"}
@@ -234,27 +247,28 @@ def check_converters(rep, repo):
                f"loader call: {calls[0].text()[:120] if calls else '?'} (a dtype narrower than float64 rounds identifiers "
                "and features; another delimiter cannot read what the converter writes)")
     fi = repo.need_function(LOADER, "load_json")
-    w = Walker(repo, fi, inline=lambda f: False)
+    w = Walker(repo, fi, inline=inline_same_module_private(fi))
     okj = False
-    hs = [e for e in w.events if e.kind == "call" and e.name == "numpy.hstack" and e.loops]
+    hs = [e for e in w.events if e.kind == "call" and e.name == "numpy.hstack"]
     if len(hs) == 1:
-        li = w.loops[hs[0].loops[-1]]
-        dvar = ("iter", li.domain, li.lid)
-        key = lambda k: ("idx", dvar, ("const", k))
-        meta = ("call", ("mod", "numpy.asarray"), (("alloc", "list", (key("id"), key("label")), ()),), ())
         a = hs[0].args[0] if hs[0].args else None
         if a is not None and a[0] == "tuple" and len(a[1]) == 2:
             m, ft = a[1]
-            mm = m
-            if m[0] == "call" and m[1] == ("mod", "numpy.asarray") and m[2] and m[2][0][0] == "alloc":
-                mm = ("call", m[1], (m[2][0][:4],), ())
-            okj = mm == meta and ft == ("call", ("mod", "numpy.asarray"), (key("features"),), ())
-        okj = okj and li.domain[0] == "idx" and li.domain[2] == ("const", "data")
+            # features = asarray(D["features"]) for the record D of the iteration over <json>["data"]
+            D = None
+            if ft[0] == "call" and ft[1] == ("mod", "numpy.asarray") and len(ft[2]) == 1 and ft[2][0][0] == "idx" \
+                    and ft[2][0][2] == ("const", "features"):
+                D = ft[2][0][1]
+            if D is not None and D[0] == "iter" and D[1][0] == "idx" and D[1][2] == ("const", "data"):
+                key = lambda k: ("idx", D, ("const", k))
+                if m[0] == "call" and m[1] == ("mod", "numpy.asarray") and m[2] and m[2][0][0] == "alloc" \
+                        and m[2][0][1] == "list":
+                    okj = m[2][0][2] == (key("id"), key("label"))
     rep.fn("LOAD-json", fi, "load_json rebuilds rows as (id, label, features...) from the 'data' list", okj,
            "the JSON loader must read the keys the converter writes, in id, label, features order")
     # Subgraph._load dispatch
     fi = repo.need_method("Subgraph", "_load")
-    w = Walker(repo, fi, self_class="Subgraph", inline=lambda f: False)
+    w = Walker(repo, fi, self_class="Subgraph", inline=inline_same_module_private(fi))
     ext_t = ("idx", ("call", ("attr", ("param", fi.params[1]), "split"), (("const", "."),), ()), ("const", -1))
     from ..schema import extension_dispatch
     disp = extension_dispatch(w, ext_t, ("csv", "txt", "json"), LOADER)
